@@ -195,6 +195,12 @@ def gen_source(rnd, nclasses=3):
         inst = 'o%d' % ci
         L.append('%s = %s()' % (inst, name))
         objects += [inst, name]
+        if 'nondata_desc' in allf:
+            # a second instance whose own __dict__ shadows the class-level non-data descriptor
+            # (what a computed cached_property leaves behind); the first instance has no such entry
+            L.append('%ss = %s()' % (inst, name))
+            L.append("%ss.__dict__['nd'] = Leaf()" % inst)
+            objects.append(inst + 's')
         if 'instattr' in feats:
             plain += [('%s.i_int' % inst, 'int', 'instance'), ('%s.i_str' % inst, 'str', 'instance'),
                       ('%s.i_leaf' % inst, 'Leaf', 'instance'),
